@@ -24,6 +24,18 @@ CHECKS.update({
    technique='deterministic simulation with fault injection: virtual clock with seeded deadline jumps and stalls, enumeration of step-limit cut points against a fault-free twin, lifecycle call histories against a reference state machine',
    text='For each sampled proof (all logics, seeded schedule/options) a fault-free twin fixes natural length n and verdict; then every step-limit cut 1..n+1 (thorough; a seeded subset in quick) plus None/0/-1, deadline faults placed at seeded clock-read indices on a virtual clock (first step, mid, last step, model generation, after completion, stalled clock, ticking clock), and a lifecycle history of API calls are injected and judged: bounded steps, unchanged proof when the limit does not bite, premature/no verdict/tree rules, timeout raised neither early nor late relative to the public build timer, finished tableaux inert, setters and rule-set mutations locked after start.',
    note='Clock is monotone; deadline positions and lifecycle histories are sampled, cut points are enumerated per sampled proof (n<=60).'),
+ 'C01': dict(engine='proofsim', level='exploration', ref='DESIGN.md §6 C01',
+   technique='deterministic simulation: seeded search over arguments x logics x option combinations x drive modes x tie-break schedules; oracle = bounded countermodel search in an independent reference semantics plus cross-schedule witnesses (models the prover produced on another schedule, re-evaluated by the reference); witness-aware root-cause diagnosis',
+   text='Every explored run that completes with all branches closed is confronted with (a) R1\'s bounded countermodel search (exact truth tables on the propositional fragment; frames <=2 worlds exhaustive, 3 sampled; argument constants +1) and (b) models produced by the prover itself for the same argument under other schedules/options, re-verified by R1. An alarm needs a re-verified countermodel. Arguments, schedules and options are sampled; countermodels beyond the bounds are missed.',
+   note='Trusts R1 (cross-examined against the library evaluator by C08 on every logic: they agree everywhere except the recorded FDE-family discrepancy); per-world classical identity.'),
+ 'C02': dict(engine='proofsim', level='exploration', ref='DESIGN.md §6 C02',
+   technique='deterministic simulation: seeded search over arguments x logics x options x tie-break schedules; every open limit-free branch of every completed tableau is judged by the library\'s own model builder and evaluator (node-by-node satisfaction, access pairs, countermodel test), with R1 consulted only to attribute FDE-family failures to the evaluator',
+   text='For every open branch without a quit flag of every completed explored tableau (all logics, fragments, options, seeded tie-break orders, cache sizes) the branch\'s own model must satisfy every node at its world, contain every access pair and be a countermodel by the library\'s own test, without raising. Saturation gaps show up as unsatisfied nodes. Sampling only.',
+   note='Oracle is the library evaluator as the property states; C08 pins that evaluator to R1.'),
+ 'C08': dict(engine='modelsim', level='exploration', ref='DESIGN.md §6 C08',
+   technique='deterministic simulation: seeded model-API call histories (insertion orders, repeated facts, negated literals) mirrored order-free into an independent reference semantics; differential evaluation of ~50 sentences per model at every world with innermost-clause localisation',
+   text='Seeded histories of set-value / add-access calls from a hidden consistent ground truth, in all 57 logics; after finish() the access relation must be the required closure (serial superset for D), identity/existence completion must make identity an equivalence respected by every extension at every world, and value_of must equal R1 on sampled sentences (all operators, quantifiers, modal operators, opaques) at every world. Sampling of models, orders and sentences.',
+   note='Trusts R1; a disagreement is localised to the innermost clause and adjudicated against doc/logics before being listed.'),
 })
 
 NOT_APPLICABLE = {
